@@ -128,8 +128,10 @@ func (c *Check) persistUnits(family, structType string) map[*Func][]*PersistPath
 						pp.Bank = append(pp.Bank, e)
 					}
 					if e.Kind == "store" && e.Op == "Set" && e.Family == family {
-						// a value a callee builds itself is that callee's record, judged on the callee's own paths
-						if len(e.Chain) >= 1 && !c.passedThroughCallee(e, structType) {
+						// a context value a callee builds itself is that callee's write, judged by its role on the callee's own
+						// paths (pause-for-funds, skip, complete); for bindings the path's last stored value is what the deposit
+						// and availability rules judge, whoever builds it
+						if structType == "RequestContext" && len(e.Chain) >= 1 && !c.passedThroughCallee(e, structType) {
 							continue
 						}
 						if sv := structIn(e.Val, structType); sv != nil {
